@@ -443,9 +443,9 @@ type FuncFacts struct {
 
 type FactEngine struct {
 	summarising int
-	p     *Program
-	fx    *Effects
-	cache map[*FuncSrc]*FuncFacts
+	p           *Program
+	fx          *Effects
+	cache       map[*FuncSrc]*FuncFacts
 	// EntryFacts optionally supplies facts at the entry of a function
 	// (used for closures invoked synchronously at a known site).
 	objIDs  map[types.Object]int
@@ -958,6 +958,12 @@ func (ff *FuncFacts) transfer(b *cfg.Block, st *State, record bool) []*State {
 						}
 					}
 				}
+			}
+		}
+		// an edge whose facts contradict each other cannot be taken
+		for i := range outs {
+			if outs[i] != nil && st != nil && !contradictory(st) && contradictory(outs[i]) {
+				outs[i] = nil
 			}
 		}
 	}
@@ -2145,6 +2151,17 @@ func (ff *FuncFacts) assign(x *ast.AssignStmt, st *State) *State {
 					st = st.add(mkFact(true, "eq", lt, rs))
 				}
 				st = ff.resultShape(st, lt, call)
+			}
+		}
+	}
+	// b = true / b = false
+	if len(x.Lhs) == len(x.Rhs) {
+		for i := range x.Lhs {
+			if lts[i] == nil || lts[i].K != 'v' {
+				continue
+			}
+			if tv := info.Types[x.Rhs[i]]; tv.Value != nil && tv.Value.Kind() == constant.Bool {
+				st = st.add(mkFact(constant.BoolVal(tv.Value), "true", lts[i], nil))
 			}
 		}
 	}
